@@ -216,6 +216,81 @@ def _as_desc(e):
     return d
 
 
+def _stored_result_lost(prog, f, call):
+    """The call's result is the whole right-hand side of a store to a local v: returns (v, event, how, blocks) when some
+    path from the store overwrites v, or reaches a success return that does not mention v, before any read of v
+    (condition, argument, right-hand side, return).  None when the result is always looked at (or is not stored so)."""
+    evs = f.blocks[call['_b']]['ev']
+    store = None
+    for x in evs[call['_i'] + 1:]:
+        if x['k'] in ('asg', 'decl'):
+            rhs = strip(x.get('r') if x['k'] == 'asg' else x.get('init'))
+            if isinstance(rhs, dict) and rhs.get('k') == 'call' and rhs.get('fn') == call.get('fn') and \
+                    (x['k'] == 'decl' or x.get('op') == '='):
+                store = x
+            break
+        if x['k'] == 'call':
+            continue
+        break
+    if store is None:
+        return None
+    if store['k'] == 'decl':
+        v = store['n']
+    else:
+        l = strip(store['l'])
+        if not (isinstance(l, dict) and l.get('k') == 'var' and l.get('vk') == 'local'):
+            return None
+        v = l['n']
+
+    def reads(x):
+        if x['k'] == 'asg':
+            l2 = strip(x['l'])
+            pure = isinstance(l2, dict) and l2.get('k') == 'var' and l2['n'] == v and x.get('op') == '='
+            if pure:
+                return mentions_var(x.get('r'), v)
+            return mentions_var(x.get('l'), v) or mentions_var(x.get('r'), v)
+        if x['k'] == 'decl':
+            return mentions_var(x.get('init'), v)
+        if x['k'] == 'call':
+            return mentions_var(x.get('args'), v) or mentions_var(x.get('recv'), v)
+        if x['k'] == 'ret':
+            return mentions_var(x.get('e'), v)
+        return any(mentions_var(x.get(k2), v) for k2 in ('e', 'b', 'i'))
+
+    def overwrites(x):
+        if x['k'] == 'asg':
+            l2 = strip(x['l'])
+            return isinstance(l2, dict) and l2.get('k') == 'var' and l2['n'] == v and x.get('op') == '='
+        return x['k'] == 'decl' and x['n'] == v
+    seen = set()
+    work = [(store['_b'], store['_i'] + 1, [store['_b']])]
+    while work:
+        bid, i0, path = work.pop()
+        stop = False
+        for x in f.blocks[bid]['ev'][i0:]:
+            if reads(x):
+                stop = True
+                break
+            if overwrites(x):
+                return v, x, 'overwritten', path
+            if x['k'] == 'ret':
+                if ret_value_class(prog, f, x) == 'success':
+                    return v, x, 'a success value is returned', path
+                stop = True
+                break
+        if stop:
+            continue
+        t = f.blocks[bid].get('term')
+        if t and 'cond' in t and mentions_var(t['cond'], v):
+            continue
+        for s2 in f.blocks[bid]['succ']:
+            if s2 is None or s2 in seen:
+                continue
+            seen.add(s2)
+            work.append((s2, 0, path + [s2]))
+    return None
+
+
 def error_discipline(ctx, rid, fns, ignore=None, soft_ok=None):
     """E1 over the given functions.  For every call of a fallible function:
     (a) the result is used (not discarded), unless the (caller, callee) pair is in `ignore`;
@@ -246,6 +321,12 @@ def error_discipline(ctx, rid, fns, ignore=None, soft_ok=None):
                 continue
             fs = failure_successor(f, e)
             if fs is None:
+                lost = _stored_result_lost(prog, f, e)
+                if lost is not None:
+                    ctx.violation(rid, f.name, 'failure-of:%s stored-in:%s overwritten-unread' % (nm, lost[0]), f.where(lost[1]),
+                                  'the result of fallible %s is stored in `%s` in %s and %s before anything looked at it' % (
+                                      nm, lost[0], f.name, lost[2]), witness={'call': f.where(e), 'blocks': lost[3]})
+                    continue
                 ctx.inst(rid, f.where(e), 'result of %s is consumed in %s (assigned / returned '
                          '/ argument)' % (nm, f.name))
                 continue
@@ -688,6 +769,54 @@ def canon_before_intern(ctx, rid, f, exempt=None):
                   f.where(e), '`%s` passes CanonicalizePath before %s in %s' % (v, e.get('name'), f.name),
                   witness=None if bad is None else {'blocks': bad[0]})
     return n
+
+
+def intern_site_status(f, e):
+    """Status of ONE call of an interning function (State::GetNode, ...): ('canon', var, None) when the path variable
+    passes CanonicalizePath on every way from each of its definitions; ('param', var, None) when it is the enclosing
+    function's own parameter handed on unchanged; ('nonvar', None, None) when the argument is no tracked variable;
+    ('bad', var, witness path) otherwise."""
+    parg = None
+    for a in e.get('args', []):
+        vs = [x for x in walk(a) if x.get('k') == 'var' and
+              ('string' in (x.get('ty') or '') or 'StringPiece' in (x.get('ty') or '') or 'char *' in (x.get('ty') or ''))]
+        if vs:
+            parg = vs[0]
+            break
+    if parg is None:
+        return 'nonvar', None, None
+    v = parg['n']
+
+    def is_canon(x):
+        if not (x['k'] == 'call' and x.get('name') == 'CanonicalizePath' and any(mentions_var(a, v) for a in x.get('args', []))):
+            return False
+        args = x.get('args', [])
+        if len(args) == 3 and not mentions_var(args[1], v):
+            lens = [y['n'] for y in walk(args[1]) if y.get('k') == 'var']
+            cut = [y for y in f.events('call') if lastname(y.get('name')) in ('resize', 'erase', 'assign') and
+                   mentions_var(y.get('recv'), v) and any(mentions_var(y.get('args'), ln) for ln in lens) and
+                   f.dominates_ev(x, y) and f.dominates_ev(y, e)]
+            return bool(cut)
+        return True
+    if parg.get('vk') == 'param':
+        bad = f.find_path(None, lambda x: x is e, is_blocker=is_canon, from_succ=f.entry)
+        if bad is None:
+            return 'canon', v, None
+        written = [x for x in f.stores() if strip(x.get('l') if x['k'] != 'decl' else None) is not None and
+                   x['k'] == 'asg' and strip(x['l']).get('k') == 'var' and strip(x['l'])['n'] == v]
+        return ('param', v, None) if not written else ('bad', v, {'blocks': bad[0]})
+    defs = [x for x in f.events() if (x['k'] == 'decl' and x['n'] == v) or
+            (x['k'] == 'asg' and mentions_var(x['l'], v) and strip(x['l']).get('k') == 'var')]
+    bad = None
+    for d in defs:
+        if not f.ev_reaches(d, e):
+            continue
+        r = f.find_path(d, lambda x: x is e, is_blocker=lambda x: is_canon(x) or (x is not d and x in defs))
+        if r is not None:
+            bad = r
+    if bad is None:
+        return 'canon', v, None
+    return 'bad', v, {'blocks': bad[0]}
 
 
 def skip_conditions_exact(ctx, rid, f, loop, is_action, allowed_skip, what, construct):
